@@ -230,6 +230,13 @@ def history_api_check(prop, res, scn):
                             "detail": "DescribeExecution for EXPRESS %s answered %s" % (arn, d["status"])})
             continue
         rev = w.api_sync(n, "GetExecutionHistory", {"executionArn": arn, "reverseOrder": True})
+        # reading is reading: whatever options a client reads the history with, the next reader gets the same events
+        w.api_sync(n, "GetExecutionHistory", {"executionArn": arn, "includeExecutionData": False, "maxResults": 3})
+        again = w.api_sync(n, "GetExecutionHistory", {"executionArn": arn})
+        if fwd["status"] == 200 and (again["status"] != 200 or again["json"] != fwd["json"]):
+            out.append({"property": prop, "rule": "history-api", "witness": "read-changed-history",
+                        "detail": "GetExecutionHistory of %s answers differently after the history was read with other "
+                                  "options (includeExecutionData false)" % arn})
         stored = n.state_engine.execution_history.get(arn)
         if fwd["status"] != 200 or rev["status"] != 200:
             out.append({"property": prop, "rule": "history-api", "witness": None,
